@@ -452,6 +452,9 @@ class Pure(object):
         return p.ev(fv.node.body)
 
     def inline_spec(self, f, args, kwargs, extra_env=None):
+        prim = getattr(f, '_pyvc_prim', None)
+        if prim is not None and extra_env is None:
+            return getattr(self, 'prim_' + prim)(*args)
         node, _ = C.func_ast(f)
         if extra_env is not None:
             env = dict(extra_env)
@@ -631,6 +634,11 @@ class Pure(object):
             return IntV(self.divmod_general(ta, tb)[0])
         if isinstance(op, ast.Mod):
             self.safety('ZeroDivisionError', tb != 0)
+            # (x mod c1) mod c2 == x mod c2 when c2 | c1  (both positive constants)
+            if z3.is_int_value(tb) and tb.as_long() > 0 and z3.is_app_of(ta, z3.Z3_OP_MOD) and \
+                    z3.is_int_value(ta.arg(1)) and ta.arg(1).as_long() > 0 and \
+                    ta.arg(1).as_long() % tb.as_long() == 0:
+                return IntV(ta.arg(0) % tb)
             return IntV(self.divmod_general(ta, tb)[1])
         if isinstance(op, ast.LShift):
             self.safety('negative-shift', tb >= 0)
@@ -738,7 +746,7 @@ class Pure(object):
                     return z3.BoolVal(bool(f(a.obj, b.obj)))
                 except Exception:
                     pass
-            if not self.eng.tolerant:
+            if not self.eng.tolerant and not self.spec:
                 self.eng.note('havoc: ordering comparison on non-int (line %s)' % self.lineno)
             return fresh_bool('cmp')
         if isinstance(op, ast.Lt):
@@ -1326,6 +1334,9 @@ class PathExec(object):
             eng.note('havoc: cannot bind call of %s: %s' % (ct.target, e))
             yield st, UnkV('unbindable call')
             return
+        for k, dv in ct.none_as.items():
+            if isinstance(env.get(k), ConstV) and env[k].obj is None:
+                env[k] = lift(dv)
         p = Pure(eng, st, env, ct.func.__globals__, True, guard, lineno)
         short = ct.target.split('.')[-1]
         if ct.requires is not None:
